@@ -53,6 +53,14 @@ pub fn marker_exprs() -> Vec<(&'static str, Value)> {
         ("C:filter", json!({"filter": [{"var": "arr"}, true]})),
         ("C:reduce", json!({"reduce": [{"var": "arr"}, {"var": "current"}, 0]})),
         ("C:log", json!({"log": {"var": "m_var"}})),
+        // computed without touching the data: a constant expression's value is as inert as any other
+        ("K:merge", json!({"merge": [[{"var": "s"}]]})),
+        ("K:merge-2", json!({"merge": [[{"log": "LEAK"}], [{"+": ["x"]}]]})),
+        ("K:if", json!({"if": [true, [{"var": "s"}]]})),
+        ("K:or", json!({"or": [0, [{"log": "LEAK"}]]})),
+        ("K:filter", json!({"filter": [[[{"log": "LEAK"}]], true]})),
+        ("K:map", json!({"map": [[1], [{"var": "s"}]]})),
+        ("K:reduce", json!({"reduce": [[1], [{"var": "s"}, {"log": "LEAK"}], 0]})),
     ]
 }
 
@@ -65,6 +73,7 @@ pub fn exprs(thorough: bool) -> Vec<Value> {
         json!({"cat": ["a", {"var": "one"}]}), json!({"+": [1, {"var": "one"}]}), json!({"merge": [{"var": "arr"}, 1]}),
         json!({"if": [{"var": "nope"}, 1, {"var": "m_log"}]}), json!({"var": ["nope", {"var": "m_var"}]}),
         json!({"map": [{"var": "arr"}, {"var": ""}]}), json!({"missing": ["one", "q"]}),
+        json!({"merge": [[{"var": "s"}], 2.0]}), json!({"if": [true, [{"log": "LEAK"}]]}),
     ];
     if thorough {
         e.extend([
@@ -357,6 +366,57 @@ pub fn run(ctx: &mut Ctx) {
         // nested: a long eager operand list inside another one
         let inner: Vec<Value> = (0..n).map(|i| json!({"log": format!("I{}", i)})).collect();
         ctx.check("tracer:size-probe:nested", &json!({"cat": [{"log": "before"}, {"merge": inner}, {"log": "after"}]}), &dd);
+    }
+    // substitution law at size: a long operand written in the rule and the same value read from the
+    // data give the same answer, whatever the spelling of the numbers in it
+    for n in al::size_classes(ctx.tier_thorough) {
+        if !ctx.mine() {
+            continue;
+        }
+        let nn = n as i64;
+        let long_i: Vec<Value> = (1..=nn).map(|i| json!(i)).collect();
+        let long_f: Vec<Value> = (1..=nn).map(|i| json!(i as f64)).collect();
+        let long_s: Vec<Value> = (1..=nn).map(|i| json!(format!("k{}", i))).collect();
+        let long_m: Vec<Value> = (1..=nn).map(|i| match i % 4 { 0 => json!(i), 1 => json!(i as f64), 2 => json!(i.to_string()), _ => json!([i]) }).collect();
+        let needles = [json!(2), json!(2.0), json!("2"), json!(nn), json!(nn as f64), json!(nn + 1), json!([3]), json!([3.0]), json!("k2"), json!(null)];
+        let mut cases: Vec<(&str, Vec<Value>)> = Vec::new();
+        for long in [&long_i, &long_f, &long_s, &long_m] {
+            let l = Value::Array(long.clone());
+            for nd in &needles {
+                cases.push(("in", vec![nd.clone(), l.clone()]));
+                cases.push(("merge", vec![l.clone(), nd.clone()]));
+            }
+            cases.push(("cat", vec![l.clone(), json!("|")]));
+            cases.push(("==", vec![l.clone(), l.clone()]));
+            cases.push(("==", vec![l.clone(), Value::Array(long_i.clone())]));
+            cases.push(("<", vec![Value::Array(long_i.clone()), l.clone()]));
+            cases.push(("missing", vec![l.clone()]));
+            cases.push(("missing_some", vec![json!(2), l.clone()]));
+            cases.push(("max", long.clone()));
+            cases.push(("min", long.clone()));
+            cases.push(("+", long.clone()));
+            cases.push(("cat", long.clone()));
+            cases.push(("merge", long.clone()));
+        }
+        for (k, args) in cases {
+            ctx.edge();
+            if args.iter().any(al::is_operation_shaped) {
+                continue;
+            }
+            let lhs_rule = op(k, args.clone());
+            let dd = Value::Array(args.clone());
+            let lhs = ctx.check("law:substitution:size-probe:L", &lhs_rule, &dd);
+            let rhs_rule = op(k, (0..args.len()).map(|i| json!({"var": i})).collect());
+            let rhs = ctx.check("law:substitution:size-probe:V", &rhs_rule, &dd);
+            let same = match (lhs.ok(), rhs.ok()) {
+                (Some(a), Some(b)) => a == b,
+                (None, None) => lhs.is_err() && rhs.is_err(),
+                _ => false,
+            };
+            if !same {
+                ctx.law_fail("law:substitution", &lhs_rule, &dd, format!("same as {}: {}", rhs_rule, rhs.show()), lhs.show());
+            }
+        }
     }
     // substitution law
     let es = exprs(ctx.tier_thorough);
